@@ -80,6 +80,13 @@ def convert_case(case: dict) -> dict:
 
         r = convert(xlsform=copy.deepcopy(obj) if isinstance(obj, dict) else obj, **kwargs)
         res.update(status="ok", xform=r.xform, warnings=list(r.warnings), itemsets=r.itemsets)
+        if not case.get("allow_malformed"):
+            # a "successful" conversion whose output no XML parser accepts cannot be projected; every check treats it
+            # as an outcome of its own (a violation of that check's 'converted' / 'no_crash' clause), never as exit 2
+            from harness import project
+
+            if not project.wellformed(r.xform)["parse_ok"]:
+                res["status"] = "malformed_output"
         if case.get("want_pyxform"):
             res["pyxform"] = r._pyxform
         if case.get("post"):
